@@ -831,9 +831,26 @@ func shapeSig(q *Q) string {
 	return "?"
 }
 
+// pathRel summarises which nesting paths a query addresses.
+func pathRel(q *Q) string {
+	ps := q.leafPaths(nil)
+	switch {
+	case len(ps) == 0:
+		return "no-field"
+	case len(ps) == 1 && ps[""]:
+		return "top-level"
+	case len(ps) == 1:
+		return "one-array"
+	case len(ps) == 2 && ps["items"] && ps["items.subs"]:
+		return "array+its-sub-array"
+	}
+	return "different-paths"
+}
+
 // classify names a per-parent mismatch: a known shape whose direction fits, else a class
-// built from the mapping, the direction and the abstract shape.
-func classify(q *Q, nested bool, score string, extra bool) string {
+// built from the mapping, the direction, the root operator, the relation of the nesting paths
+// addressed and the index layout.
+func classify(q *Q, nested bool, score string, extra bool, layout string) string {
 	for _, h := range knownShapes(q, nested, score) {
 		if h.extra == extra {
 			return h.class
@@ -843,5 +860,5 @@ func classify(q *Q, nested bool, score string, extra bool) string {
 	if extra {
 		dir = "extra"
 	}
-	return fmt.Sprintf("%s:%s:%s", mappingName(nested), dir, shapeSig(q))
+	return fmt.Sprintf("%s:%s:%s@%s:%s", mappingName(nested), dir, q.Kind, pathRel(q), layout)
 }
